@@ -32,7 +32,7 @@ class Lemma:
 
 class Prop:
     def __init__(self, pid, contracts=(), claims=('*',), lemmas=(), structural=(), bounded=(),
-                 natives=None, assumptions=(), level='proof', explanation='', not_decided=(), native_default=None):
+                 natives=None, assumptions=(), level='proof', explanation='', not_decided=(), native_default=None, z3_ms=None):
         self.id = pid
         self.contracts = list(contracts)
         self.claims = list(claims)
@@ -45,6 +45,7 @@ class Prop:
         self.explanation = explanation
         self.not_decided = list(not_decided)
         self.native_default = native_default   # callable(oid, model) -> dict(holds=..., ...)
+        self.z3_ms = z3_ms                     # per-query z3 budget for this property (default: smt.Z3_MS)
 
 
 def load_prop(pid):
@@ -69,6 +70,8 @@ def _verify_worker(job):
         from pyvc import contracts as C, smt
         from pyvc.forking import ForkCtl
         prop = load_prop(pid)
+        if prop.z3_ms:
+            smt.Z3_MS = int(prop.z3_ms)
         c = C.REGISTRY[func]
         saved = list(c.requires)
         if extra_requires:
